@@ -427,8 +427,12 @@ func verifC04Topo(h, pw, ntopo, probes, anyKey, conns int) {
 	}
 	w.Tick()
 	w.AdoptPools()
+	w.RunTasks()
 	c := w.NewClient("10.0.0.1:5000")
 	seen := map[*core.VerifConn]int{}
+	for _, s := range w.SortedServers() {
+		seen[s] = len(w.Sent(s))
+	}
 	answered := map[*core.VerifConn]int{}
 	nsent := 0
 
@@ -561,8 +565,9 @@ func verifC04Topo(h, pw, ntopo, probes, anyKey, conns int) {
 		verifrt.Sleep(1100) // the ticker runs at most once a second
 		w.Tick()
 		w.AdoptPools()
+		w.RunTasks() // a topology probe queued by the ticker is written now, not together with the next request
 		for _, s := range w.SortedServers() {
-			seen[s] = len(w.Sent(s)) // a handshake of a connection opened by the ticker itself
+			seen[s] = len(w.Sent(s)) // a handshake / probe on a connection used by the ticker itself
 		}
 		request(cur, false)
 		for i := 1; i < conns; i++ {
